@@ -321,7 +321,19 @@ func jShape(e js.IExpr) string {
 			for _, e := range c.List[:len(c.List)-1] {
 				out += jShape(e) + ";"
 			}
-			return out + "(" + jShape(c.List[len(c.List)-1]) + " " + x.Op.String() + " " + jShape(x.Y) + ")]"
+			return out + jShape(&js.BinaryExpr{Op: x.Op, X: c.List[len(c.List)-1], Y: x.Y}) + "]"
+		}
+		if x.Op == js.AndToken || x.Op == js.OrToken || x.Op == js.NullishToken {
+			// associative: a&&(b&&c) and (a&&b)&&c are the same chain
+			parts := jFlat(x, x.Op, nil)
+			out := "chain" + x.Op.String() + "["
+			for i, p := range parts {
+				if i > 0 {
+					out += ";"
+				}
+				out += p
+			}
+			return out + "]"
 		}
 		return "(" + jShape(x.X) + " " + x.Op.String() + " " + jShape(x.Y) + ")"
 	case *js.CommaExpr:
@@ -334,9 +346,33 @@ func jShape(e js.IExpr) string {
 		}
 		return out + "]"
 	case *js.CondExpr:
+		// (e1,..,en) ? x : y  ==  e1,..,(en ? x : y)
+		cx := x.Cond
+		if g, ok := cx.(*js.GroupExpr); ok {
+			cx = g.X
+		}
+		if c, ok := cx.(*js.CommaExpr); ok && len(c.List) > 0 {
+			out := "seq["
+			for _, e := range c.List[:len(c.List)-1] {
+				out += jShape(e) + ";"
+			}
+			return out + jShape(&js.CondExpr{Cond: c.List[len(c.List)-1], X: x.X, Y: x.Y}) + "]"
+		}
 		return "(" + jShape(x.Cond) + " ? " + jShape(x.X) + " : " + jShape(x.Y) + ")"
 	}
 	return "?"
+}
+
+// jFlat: operands of a chain of one associative logical operator (&& || ??), in order
+func jFlat(e js.IExpr, op js.TokenType, out []string) []string {
+	if g, ok := e.(*js.GroupExpr); ok {
+		e = g.X
+	}
+	if b, ok := e.(*js.BinaryExpr); ok && b.Op == op {
+		out = jFlat(b.X, op, out)
+		return jFlat(b.Y, op, out)
+	}
+	return append(out, jShape(e))
 }
 
 var jCommaLast = []string{"b", "b&&c", "b||c", "b??c", "b==c", "b+c", "b*c", "b|c", "!b", "b?c:a", "b=c", "b<c", "b**c"}
@@ -579,5 +615,39 @@ func VerifJSObjectMembers(n int) {
 	got, ok2 := jObjectShape(append([]byte(nil), w.buf...))
 	vAssert(ok2, "output parses to x={...}")
 	vAssert(got == want, "same members: "+string(src)+" => "+string(w.buf))
+	vReach("end")
+}
+
+var jParenOps = []string{"&&", "||", "??", "+", "-", "*", "/", "%", "**", "|", "&", "^", "==", "<", "<<", "in", "instanceof", ","}
+
+// VerifJSParens (C01): x=((a OP1 b) OP2 c) and x=(a OP1 (b OP2 c)) for every pair out of 18 binary operators (and the
+// conditional operator around them): the printer drops exactly the parentheses that precedence and associativity
+// make redundant: the output parses to the same expression tree.
+func VerifJSParens(n int) {
+	op1 := jParenOps[vChoice("op1", len(jParenOps))]
+	op2 := jParenOps[vChoice("op2", len(jParenOps))]
+	var e string
+	switch vChoice("form", 4) {
+	case 0:
+		e = "((a " + op1 + " b) " + op2 + " c)"
+	case 1:
+		e = "(a " + op1 + " (b " + op2 + " c))"
+	case 2:
+		e = "((a " + op1 + " b) ? (b " + op2 + " c) : d)"
+	default:
+		e = "(a ? b : (c " + op1 + " d)) " + op2 + " e"
+		e = "(" + e + ")"
+	}
+	src := []byte("x=" + e + ";")
+	want, ok := jShapeOf(src)
+	vAssume(ok)
+	w := &vWriter{}
+	err := (&Minifier{}).Minify(nil, w, &vReader{b: append([]byte(nil), src...)}, nil)
+	vReach("after-call")
+	vOutput("out", w.buf)
+	vAssert(err == nil, "accepted")
+	got, ok2 := jShapeOf(append([]byte(nil), w.buf...))
+	vAssert(ok2, "output parses to one expression statement")
+	vAssert(got == want, "same expression tree: "+string(src)+" => "+string(w.buf))
 	vReach("end")
 }
